@@ -350,7 +350,23 @@ void apply(int op, uint8_t a, uint8_t b, int ns, int nw, int nu)
         break;
     }
     case S_SHARE: {
-        if (i == j) { CNT("noop.self"); TRACE("share noop (same object)"); return; }
+        if (i == j) {
+            // share(a, a): what it does to a is not documented (on the pinned tree it acts as a reset; leaving a as it
+            // is would be as defensible). Both are accepted -- the outcome is read off get() -- but whichever it is,
+            // the counting clauses hold: if a came out empty it stopped being an owner *now* (clear / free events of
+            // this very call when it was the last one), if it kept the address it still is one. Found necessary by
+            // seeded C05-w7b-1 (references taken before the destination is reset: a self-share leaks an owner).
+            int k;
+            if (sh[i] >= 0 && A[sh[i]].has_clr && inner_weak_applies(sh[i], &k)) { CNT("noop.self"); TRACE("share noop (same object)"); return; }
+            LIB(cstl_shared_ptr_share(&SP[i], &SP[i]));
+            const void *g;
+            LIB(g = cstl_shared_ptr_get_const(&SP[i]));
+            if (sh[i] >= 0 && g == nullptr) { pred_drop_owner(sh[i], i); sh[i] = -1; CNT("class.self_share.emptied_the_object"); }
+            else CNT(sh[i] >= 0 ? "class.self_share.kept_the_object" : "class.self_share.empty_object");
+            TRACE("S%d share -> itself: %s", i, g ? "still refers to its memory" : "empty afterwards");
+            compare_events("shared_share_self");
+            break;
+        }
         bool occupied = sh[j] >= 0;
         size_t d0 = 0, d1 = 0;
         for (auto &al : A) d0 += al.destroyed;
